@@ -292,4 +292,163 @@ Section WithPem.
       assert (n = 0%N) as -> by lia. reflexivity.
   Qed.
 
+
+  (** *** annotation entries *)
+  Hypothesis pem_enc_begin : forall m, m <> [] -> exists rest, split_on LF (pem_enc m) = BeginMessage :: rest.
+  Hypothesis pem_canon : forall ids sk m n, m <> [] -> pem_dec (ser (EAnn ids sk m n)) = Some m.
+  Hypothesis pem_none : forall ids sk n, pem_dec (ser (EAnn ids sk [] n)) = None.
+
+  Definition idline (i : bytes) : bytes := kv EntryIDKey (hex_encode i).
+  Definition lit (b : bool) : bytes := if b then TrueLit else FalseLit.
+
+  Lemma ann_loop_ids tail : forall ids s,
+    as_st s = 0 -> forallb wf_hash ids = true ->
+    ann_loop s (map idline ids ++ tail) =
+    ann_loop {| as_st := 0; as_ids := as_ids s ++ ids; as_skip := as_skip s; as_num := as_num s |} tail.
+  Proof.
+    induction ids as [|i ids IH]; intros s Hs Hw.
+    - cbn [map app]. rewrite app_nil_r. destruct s; cbn in *; subst; reflexivity.
+    - cbn [forallb] in Hw. apply andb_true_iff in Hw as [Hi Hw]. cbn [map app ann_loop].
+      unfold idline at 1 2. rewrite trim_kv_not_begin by (key_ok || apply wf_val_hex).
+      rewrite parse_kv_kv by (key_ok || apply wf_val_hex).
+      unfold ann_step. change (beq EntryIDKey EntryIDKey) with true. cbn iota. rewrite Hs. cbn [Nat.eqb].
+      rewrite new_hash_hex by assumption. rewrite IH by (reflexivity || assumption).
+      cbn [as_ids as_skip as_num]. now rewrite <- app_assoc.
+  Qed.
+
+  Lemma wf_val_lit b : wf_val (lit b) = true.
+  Proof. destruct b; vm_compute; reflexivity. Qed.
+
+  Lemma ann_loop_skip s sk tail :
+    as_st s = 0 -> as_ids s <> [] ->
+    ann_loop s (kv SkipKey (lit sk) :: tail) =
+    ann_loop {| as_st := 1; as_ids := as_ids s; as_skip := sk; as_num := as_num s |} tail.
+  Proof.
+    intros Hs Hi. cbn [ann_loop]. rewrite trim_kv_not_begin by (key_ok || apply wf_val_lit).
+    rewrite parse_kv_kv by (key_ok || apply wf_val_lit). unfold ann_step.
+    change (beq SkipKey EntryIDKey) with false. change (beq SkipKey SkipKey) with true. cbn iota.
+    rewrite Hs. destruct (as_ids s) eqn:E; [congruence|]. cbn [Nat.eqb List.length negb andb].
+    destruct sk; reflexivity.
+  Qed.
+
+  Lemma ann_loop_num s n tail :
+    as_st s = 1 -> wf_num n = true ->
+    ann_loop s (kv NumberKey (dec_of_N n) :: tail) =
+    ann_loop {| as_st := 2; as_ids := as_ids s; as_skip := as_skip s; as_num := n |} tail.
+  Proof.
+    intros Hs Hn. cbn [ann_loop]. rewrite trim_kv_not_begin by (key_ok || apply wf_val_dec).
+    rewrite parse_kv_kv by (key_ok || apply wf_val_dec). unfold ann_step.
+    change (beq NumberKey EntryIDKey) with false. change (beq NumberKey SkipKey) with false.
+    change (beq NumberKey NumberKey) with true. cbn iota. rewrite Hs. cbn [Nat.eqb].
+    now rewrite set_number_dec.
+  Qed.
+
+  Lemma ann_loop_begin s rest : ann_loop s (BeginMessage :: rest) = Ok s.
+  Proof. reflexivity. Qed.
+
+  Lemma join_split c s : join_with c (split_on c s) = s.
+  Proof.
+    induction s as [|x s IH]; [reflexivity|]. cbn [split_on].
+    destruct (Byte.eqb x c) eqn:E.
+    - apply Byte.byte_dec_bl in E; subst. rewrite join_cons by apply split_on_nonnil. cbn. now rewrite IH.
+    - destruct (split_on c s) as [|l ls] eqn:E2; [now apply split_on_nonnil in E2|].
+      destruct ls; cbn [join_with] in *; cbn [app]; now rewrite IH.
+  Qed.
+
+  Lemma contains_app_r n a b : has_prefix n b = true -> contains n (a ++ b) = true.
+  Proof.
+    intros H. induction a as [|x a IH]; cbn [app].
+    - destruct b; cbn [contains]; now rewrite H.
+    - cbn [contains]. rewrite IH. apply orb_true_r.
+  Qed.
+
+  Lemma join_snoc c ls x : ls <> [] -> join_with c (ls ++ [x]) = join_with c ls ++ c :: x.
+  Proof.
+    induction ls as [|l ls IH]; [congruence|]. intros _. destruct ls as [|l' ls].
+    - reflexivity.
+    - change ((l :: l' :: ls) ++ [x]) with (l :: ((l' :: ls) ++ [x])).
+      rewrite (join_cons c l ((l' :: ls) ++ [x])) by (cbn; discriminate).
+      rewrite IH by discriminate. rewrite (join_cons c l (l' :: ls)) by discriminate.
+      rewrite <- app_assoc. reflexivity.
+  Qed.
+
+  Definition ann_pre (ids : list bytes) (sk : bool) (n : N) : list bytes :=
+    [AnnotationEntryHeader; []] ++ map idline ids ++ [kv SkipKey (lit sk)] ++ num_lines n.
+
+  Lemma ann_pre_nolf ids sk n : Forall (fun l => no_byte LF l = true) (ann_pre ids sk n).
+  Proof.
+    unfold ann_pre. apply Forall_app; split; [repeat constructor|].
+    apply Forall_app; split.
+    - apply Forall_forall. intros l Hin. apply in_map_iff in Hin as (i & <- & _).
+      apply no_lf_kv; [reflexivity|apply hex_no_lf].
+    - apply Forall_app; split; [|apply num_lines_nolf].
+      repeat constructor. apply no_lf_kv; [reflexivity|]. apply wf_val_nolf, wf_val_lit.
+  Qed.
+
+  Lemma ser_ann ids sk m n :
+    ser_lines pem_enc (EAnn ids sk m n) = ann_pre ids sk n ++ (match m with [] => [] | _ => [pem_enc m] end).
+  Proof. unfold ann_pre. cbn [ser_lines]. unfold idline, lit. now rewrite <- !app_assoc. Qed.
+
+  Lemma ann_loop_canon ids sk n tail :
+    ids <> [] -> forallb wf_hash ids = true -> wf_num n = true ->
+    (tail = [] \/ exists rest, tail = BeginMessage :: rest) ->
+    ann_loop {| as_st := 0; as_ids := []; as_skip := false; as_num := 0 |}
+             (map idline ids ++ [kv SkipKey (lit sk)] ++ num_lines n ++ tail)
+    = Ok {| as_st := if (0 <? n)%N then 2 else 1; as_ids := ids; as_skip := sk; as_num := n |}.
+  Proof.
+    intros Hne Hw Hn Ht. rewrite ann_loop_ids by (reflexivity || assumption). cbn [as_ids as_skip as_num app].
+    rewrite ann_loop_skip by (reflexivity || assumption). cbn [as_ids as_skip as_num].
+    unfold num_lines. destruct (0 <? n)%N eqn:E; cbn [app].
+    - rewrite ann_loop_num by (reflexivity || assumption). cbn [as_ids as_skip].
+      destruct Ht as [->|[rest ->]]; reflexivity.
+    - apply N.ltb_ge in E. assert (n = 0%N) as -> by lia.
+      destruct Ht as [->|[rest ->]]; reflexivity.
+  Qed.
+
+  Lemma roundtrip_ann ids sk m n :
+    wf_entry (EAnn ids sk m n) = true -> parse (ser (EAnn ids sk m n)) = Ok (EAnn ids sk m n).
+  Proof.
+    cbn [wf_entry]. intros H. apply andb_true_iff in H as [H Hn]. apply andb_true_iff in H as [Hne Hw].
+    assert (ids <> []) as Hids by (destruct ids; [discriminate|discriminate]).
+    unfold parse.
+    assert (has_prefix AnnotationEntryHeader (ser (EAnn ids sk m n)) = true) as Hp.
+    { unfold RslCodec.ser. cbn [ser_lines app]. apply has_prefix_ser_lines. }
+    assert (has_prefix ReferenceEntryHeader (ser (EAnn ids sk m n)) = false) as Hp0.
+    { unfold RslCodec.ser. cbn [ser_lines app join_with].
+      destruct (map _ ids ++ _); reflexivity. }
+    rewrite Hp0, Hp. unfold parse_ann, entry_body.
+    assert (exists tail, (tail = [] \/ exists rest, tail = BeginMessage :: rest) /\
+              split_on LF (ser (EAnn ids sk m n)) = ann_pre ids sk n ++ tail) as (tail & Ht & Hs).
+    { unfold RslCodec.ser. rewrite ser_ann. destruct m as [|x m].
+      - exists []. split; [now left|]. rewrite !app_nil_r.
+        apply split_join_all; [discriminate|apply ann_pre_nolf].
+      - destruct (pem_enc_begin (x :: m)) as [rest Hr]; [discriminate|].
+        exists (BeginMessage :: rest). split; [right; eauto|].
+        rewrite split_join_gen by apply ann_pre_nolf. now rewrite Hr. }
+    rewrite Hs.
+    assert (ann_pre ids sk n ++ tail = AnnotationEntryHeader :: [] ::
+              (map idline ids ++ [kv SkipKey (lit sk)] ++ num_lines n ++ tail)) as ->.
+    { unfold ann_pre. cbn [app]. now rewrite <- !app_assoc. }
+    change (beq AnnotationEntryHeader AnnotationEntryHeader && beq (trim []) []) with true. cbn iota.
+    rewrite ann_loop_canon by assumption.
+    assert (ann_message pem_dec (ser (EAnn ids sk m n)) = m) as ->.
+    { unfold ann_message. destruct m as [|x m].
+      - rewrite pem_none. now destruct (contains _ _).
+      - rewrite pem_canon by discriminate.
+        assert (contains BeginMessage (ser (EAnn ids sk (x :: m) n)) = true) as ->; [|reflexivity].
+        unfold RslCodec.ser. rewrite ser_ann, join_snoc by discriminate.
+        change (join_with LF (ann_pre ids sk n) ++ LF :: pem_enc (x :: m))
+          with (join_with LF (ann_pre ids sk n) ++ [LF] ++ pem_enc (x :: m)).
+        rewrite app_assoc. apply contains_app_r.
+        destruct (pem_enc_begin (x :: m)) as [rest Hr]; [discriminate|].
+        rewrite <- (join_split LF (pem_enc (x :: m))), Hr.
+        destruct rest; [reflexivity|rewrite join_cons by discriminate; apply has_prefix_app]. }
+    destruct (0 <? n)%N; reflexivity.
+  Qed.
+
+  Theorem roundtrip e : wf_entry e = true -> parse (ser e) = Ok e.
+  Proof.
+    destruct e; [apply roundtrip_ref|apply roundtrip_ann|apply roundtrip_prop].
+  Qed.
+
 End WithPem.
